@@ -42,7 +42,7 @@ std::unique_ptr<UnsatCore> UnsatCoreBuilder::buildReturn() {
     if (config.print_cores_full()) { return std::unique_ptr<UnsatCore>{new FullUnsatCore{logic, std::move(allTerms)}}; }
 
     return std::unique_ptr<UnsatCore>{
-        new NamedUnsatCore{solver.getTermNames(), std::move(namedTerms), std::move(hiddenTerms)}};
+        new NamedUnsatCore{logic, solver.getTermNames(), std::move(namedTerms), std::move(hiddenTerms)}};
 }
 
 void UnsatCoreBuilder::computeClauses() {
